@@ -1182,9 +1182,33 @@ func checkC13CaseFold(c *Ctx) {
 	p, r := c.P, c.R
 	r.Rule("C13.case-fold-symmetric", "K4", "in the inputrc parser no comparison lowers one side only: a string passed through strings.ToLower is compared with a constant or with another lowered string (or the comparison uses EqualFold)", 1)
 	n, bad := 0, 0
+	// lowered: directly, or somewhere on the way from the text of the line (the value slice goes back
+	// through the parser's own functions: do ← next ← readNext ← readSymbols)
+	folds := func(v ssa.Value) bool {
+		for _, l := range backSlice(v, &SliceOpts{P: p, EnterDepth: 3, FollowParams: true, Through: func(cl *ssa.Call) []ssa.Value {
+			switch calleeName(cl) {
+			case "strings.TrimPrefix", "strings.TrimSuffix", "strings.TrimSpace", "strings.Trim":
+				return cl.Call.Args[:1]
+			}
+			return nil
+		}}) {
+			if l.Kind == LeafOpaque && (l.Why == "call strings.ToLower" || l.Why == "call strings.ToUpper" || l.Why == "call strings.Title") {
+				return true
+			}
+		}
+		return false
+	}
 	isLower := func(v ssa.Value) bool {
-		cl, ok := v.(*ssa.Call)
-		return ok && (calleeName(cl) == "strings.ToLower" || calleeName(cl) == "strings.ToUpper")
+		if cl, ok := v.(*ssa.Call); ok && (calleeName(cl) == "strings.ToLower" || calleeName(cl) == "strings.ToUpper") {
+			return true
+		}
+		if bt, ok := v.Type().Underlying().(*types.Basic); !ok || bt.Info()&types.IsString == 0 {
+			return false
+		}
+		if _, isK := v.(*ssa.Const); isK {
+			return false
+		}
+		return folds(v)
 	}
 	for _, f := range p.RepoFuncs {
 		if f.Pkg == nil || !strings.HasSuffix(f.Pkg.Pkg.Path(), "/inputrc") {
@@ -1219,5 +1243,27 @@ func checkC13CaseFold(c *Ctx) {
 	}
 	if bad == 0 {
 		r.OK("C13.case-fold-symmetric", "no-one-sided-fold", "-", fmt.Sprintf("%d comparisons of folded strings inspected", n))
+	}
+	// the file an $include names is opened under the name written
+	r.Rule("C13.include-path-verbatim", "K3", "the path the parser hands to Handler.ReadFile for $include is the text of the line: no strings.ToLower / ToUpper on the way from the line to the call (a folded path names another file on a case-sensitive file system, and the included binds and settings silently do not apply)", 1)
+	nInc := 0
+	for _, f := range p.RepoFuncs {
+		if f.Pkg == nil || !strings.HasSuffix(f.Pkg.Pkg.Path(), "/inputrc") {
+			continue
+		}
+		k := 0
+		eachInstr(f, func(in ssa.Instruction) {
+			if !isInvoke(in, "inputrc.Handler", "ReadFile") {
+				return
+			}
+			nInc++
+			arg := in.(ssa.CallInstruction).Common().Args[0]
+			r.Fn(fnName(f))
+			r.Check(!folds(arg), "C13.include-path-verbatim", fmt.Sprintf("%s:ReadFile#%d", fnName(f), k), p.IPos(in), "path taken from the line as written", "the included path passes through a case conversion before it is opened")
+			k++
+		})
+	}
+	if nInc == 0 {
+		r.Unk("C13.include-path-verbatim", "inputrc:ReadFile", "-", "no Handler.ReadFile call found in the parser: anchors changed")
 	}
 }
